@@ -139,7 +139,10 @@ func (xc *XMCache) Put(bucket string, key []byte, value []byte) error {
 	}
 	if bucket != TransientBucket {
 		// put 前先强制get一下
-		xc.Get(bucket, key)
+		// 存储读失败时key进不了读集合, 不能当作成功继续写
+		if _, err := xc.Get(bucket, key); err != nil && err != ErrNotFound && err != ErrHasDel {
+			return err
+		}
 	}
 	return xc.outputsCache.Put(bucket, key, val)
 }
